@@ -112,7 +112,7 @@ var bigInts = []val.V{val.Int(maxSafe + 1), val.Int(-(maxSafe + 1)), val.Int(mat
 var okInts = []val.V{val.Int(maxSafe), val.Int(-maxSafe), val.Int(0)}
 
 var badDIDs = []string{"", "did:key:", "did:web:example.com", "did:key:zQ", "not a did", "did:key:z6Mk", "did:key:f00"}
-var badCmds = []string{"", "foo", "/foo/", "/Foo", "//x/", "/FOO/bar", "foo/bar"}
+var badCmds = []string{"", "foo", "/foo/", "/Foo", "//x/", "/FOO/bar", "foo/bar", "/É", "/ж/Ж", "/Ⅰ", "/foo/Ⓐ"}
 
 var mutKinds = []string{"drop", "null", "retype", "bigint", "okint", "bad-did", "bad-cmd", "short-nonce", "bad-policy", "nested-bigint", "unknown-field", "empty-collection"}
 
@@ -374,7 +374,7 @@ func refCommandValid(s string) bool {
 		return false
 	}
 	for _, r := range s {
-		if unicode.IsUpper(r) {
+		if unicode.IsUpper(r) || (unicode.Is(unicode.Other_Uppercase, r) && unicode.ToLower(r) != r) {
 			return false
 		}
 	}
